@@ -122,6 +122,21 @@ nodeLoop:
 			continue nodeLoop
 		}
 
+		// A switch cannot list the same constant twice.
+		seen := map[string]struct{}{}
+		for _, pair := range m {
+			for _, binexpr := range pair {
+				tv, ok := pass.TypesInfo.Types[binexpr.Y]
+				if !ok || tv.Value == nil {
+					continue
+				}
+				if _, dup := seen[tv.Value.ExactString()]; dup {
+					continue nodeLoop
+				}
+				seen[tv.Value.ExactString()] = struct{}{}
+			}
+		}
+
 		// Note that we insert the switch statement as the first text edit instead of the last one so that gopls has an
 		// easier time converting it to an LSP-conforming edit.
 		//
